@@ -119,6 +119,23 @@ def run(ctx):
                        f"the callback receives {T.show(st)[:160] if st else None}", disc="payload")
 
     wiring_rule(ctx, repo)
+    # ---- who may remove the stored checkpoint: nobody (a resumed run holds it only in memory until its next write)
+    ck_names = {"checkpoint"}
+    dels = []
+    for f_ in repo.all_functions():
+        for n_ in walk_no_nested(f_.node):
+            tg = []
+            if isinstance(n_, ast.Delete):
+                tg = [t for t in n_.targets if isinstance(t, ast.Subscript)]
+            elif isinstance(n_, ast.Call) and isinstance(n_.func, ast.Attribute) and n_.func.attr == "pop" and n_.args:
+                tg = [ast.Subscript(value=n_.func.value, slice=n_.args[0], ctx=ast.Load())]
+            for t in tg:
+                if isinstance(t.slice, ast.Constant) and t.slice.value in ck_names and not (isinstance(t.value, ast.Name) and t.value.id in ("kwargs", "config", "state", "dictionary", "config_dict")):
+                    dels.append((f_, n_))
+    ctx.decide(not dels, "C12.blob", "package", loc_of(dels[0][0], dels[0][1]) if dels else "src/aspire",
+               "no code removes the stored checkpoint group from the file",
+               (f"{dels[0][0].ident} deletes the 'checkpoint' group of the file: a resumed run interrupted before its next checkpoint leaves a file with configuration and flow "
+                "but no checkpoint at all") if dels else "", disc="delete")
     from .smcloop import forwarding_rule
     nf = forwarding_rule(ctx, "C12.route", ("checkpoint_callback", "checkpoint_every", "checkpoint_file_path"),
                          "with that sampler the checkpoint file / cadence / callback requested by the caller never reaches the SMC loop, so nothing (or only an in-memory copy) is checkpointed")
@@ -415,6 +432,7 @@ MUTANTS += [
     M("handover only for samplers without checkpoint support", _A, "if not {\"checkpoint_file_path\", \"checkpoint_every\"}.issubset(", "if {\"checkpoint_file_path\", \"checkpoint_every\"}.issubset(", "C12.wire"),
     M("file callback only without a path", _SB, "if file_path is None:\n            return self.default_checkpoint_callback", "if file_path is not None:\n            return self.default_checkpoint_callback", "C12.route"),
     M("dataset name replaced when given", _SB, "if dsetname is None:\n            iter_str", "if dsetname is not None:\n            iter_str", "C12.route"),
+    M("previous checkpoint cleared before sampling", _A, "if self.flow is not None:\n                    # Always store the flow", "if \"checkpoint\" in h5_file:\n                    del h5_file[\"checkpoint\"]\n                if self.flow is not None:\n                    # Always store the flow", "C12.blob"),
     M("emcee sampler drops the checkpoint file", "src/aspire/samplers/smc/emcee.py", "checkpoint_file_path=checkpoint_file_path,\n", "", "C12.route"),
     M("blackjax sampler drops the cadence", "src/aspire/samplers/smc/blackjax.py", "checkpoint_every=checkpoint_every,\n", "", "C12.route"),
     M("cadence guard inverted", _B, "and checkpoint_every > 0\n", "and checkpoint_every <= 0\n", "C12.cad"),
